@@ -25,7 +25,6 @@ import (
 	"google.golang.org/protobuf/types/known/timestamppb"
 )
 
-
 // c07Fake is a scripted stand-in for the WASM runtime (registered under the default runtime
 // name): the block index "idx" emits key "a" on the blocks the harness chose; the mapper
 // "m1" emits the block's symbolic byte on the blocks the harness chose and nothing on the
@@ -34,9 +33,20 @@ import (
 // store followed by the values of m1 and m2.
 type c07Fake struct {
 	emit, keys byte
+	valLen     int
 	segSize    uint64
-	graph      int // 0: stages [m1|s1] [idx|m2|out]; 1: a second store s2 (reads s1) in a stage of its own, out reads s2; 2: as 0 with s1 filtered on idx too
+	graph      int // 0: stages [m1|s1] [idx|m2|out]; 1: a second store s2 (reads s1) in a stage of its own, out reads s2; 2: as 0 with s1 filtered on idx too; 3: as 0 with an append-policy s1
 	vals, wals []byte
+}
+
+// m1Value is what m1 emits on a block where it emits: the block's symbolic byte, padded to
+// valLen bytes with bytes that tell blocks and positions apart.
+func (f *c07Fake) m1Value(blk uint64) []byte {
+	out := []byte{f.vals[blk%uint64(len(f.vals))]}
+	for i := 1; i < f.valLen; i++ {
+		out = append(out, byte(16*blk)+byte(i))
+	}
+	return out
 }
 
 type c07Instance struct{}
@@ -61,13 +71,17 @@ func (f *c07Fake) ExecuteNewCall(ctx context.Context, call *wasm.Call, cached wa
 		call.SetReturnValue(b)
 	case "m1":
 		if f.emit&(1<<(blk%f.segSize)) != 0 {
-			call.SetReturnValue([]byte{f.vals[blk%uint64(len(f.vals))]})
+			call.SetReturnValue(f.m1Value(blk))
 		}
 	case "m2":
 		call.SetReturnValue([]byte{f.wals[blk%uint64(len(f.wals))]})
 	case "s1":
 		if in := argValues["m1"]; len(in) != 0 {
-			call.DoSet(1, []string{"k0", "k1"}[blk%2], in)
+			if f.graph == 3 {
+				call.DoAppend(1, []string{"k0", "k1"}[blk%2], in)
+			} else {
+				call.DoSet(1, []string{"k0", "k1"}[blk%2], in)
+			}
 		}
 	case "s2":
 		if in := argValues["m1"]; len(in) != 0 {
@@ -93,10 +107,10 @@ type c07Obj struct {
 	cur *bstream.Cursor
 }
 
-func (o c07Obj) Cursor() *bstream.Cursor               { return o.cur }
-func (o c07Obj) Step() bstream.StepType                { return bstream.StepNewIrreversible }
-func (o c07Obj) FinalBlockHeight() uint64              { return o.cur.LIB.Num() }
-func (o c07Obj) ReorgJunctionBlock() bstream.BlockRef  { return nil }
+func (o c07Obj) Cursor() *bstream.Cursor              { return o.cur }
+func (o c07Obj) Step() bstream.StepType               { return bstream.StepNewIrreversible }
+func (o c07Obj) FinalBlockHeight() uint64             { return o.cur.LIB.Num() }
+func (o c07Obj) ReorgJunctionBlock() bstream.BlockRef { return nil }
 
 // c07Stream delivers the final blocks start..stop (the stop block makes the pipeline end the
 // stream) to the handler, one after the other.
@@ -211,6 +225,9 @@ func c07Modules(graph int) *pbsubstreams.Modules {
 		}
 	}
 	s1 := store("s1", mapIn("m1"))
+	if graph == 3 {
+		s1.Kind.(*pbsubstreams.Module_KindStore_).KindStore.UpdatePolicy = pbsubstreams.Module_KindStore_UPDATE_POLICY_APPEND
+	}
 	if graph == 2 {
 		// a store filtered on the index: with no matching block in the segment every executor of its
 		// stage may be excluded, and the job ends without streaming a block
